@@ -204,8 +204,15 @@ def run(ctx):
                 if tg.contains_uarray(case.desc) and sh.remaining <= 0:
                     continue
                 b.dec_expect_error(case, data, "random-short", sh.remaining)
-            except rc.RefError:
+            except rc.RefError as e_:
                 rc.TRACE = None
+                # bytes "malformed for the type": character data that is not a valid sequence in the type's encoding (an unpaired
+                # UTF-16 surrogate, an invalid UTF-8 / UTF-32 unit, a character size STRINGN does not define) must raise, not be
+                # replaced or dropped.  Negative lengths of signed length prefixes stay don't-cares (nothing documents them).
+                if "string data" in str(e_) or "char size" in str(e_):
+                    b.dec_expect_error(case, data, "random-malformed-characters", None)
+                else:
+                    res.dont_care("random-bytes-malformed-otherwise")
             except (UnicodeDecodeError, ValueError):
                 rc.TRACE = None
 
@@ -273,6 +280,14 @@ def run(ctx):
             must_raise("ModuleIdentityObject.encode", ModuleIdentityObject.encode, bad)
         for data in [b"", b"\x01\x00", bytes(14), bytes(14) + b"\x05ab"]:
             must_raise("ModuleIdentityObject.decode", ModuleIdentityObject.decode, data)
+        # character data that is not a valid sequence in the type's encoding is "malformed for the type": unpaired / reversed UTF-16
+        # surrogates, invalid UTF-8, a UTF-32 unit beyond U+10FFFF - never replaced or dropped silently
+        for data in [b"\x01\x00\x00\xd8", b"\x01\x00\x00\xdc", b"\x02\x00\x00\xdc\x00\xd8", b"\x02\x00\x41\x00\xff\xdb", b"\x03\x00\x00\xd8\x41\x00\x42\x00"]:
+            must_raise("STRING2.decode(malformed characters)", p.STRING2.decode, data)
+            must_raise("STRINGN.decode(malformed characters)", p.STRINGN.decode, b"\x02\x00" + data)
+            must_raise("STRINGI.decode(malformed characters)", p.STRINGI.decode, b"\x01eng\xd5\xe8\x03" + data)
+        for data in [b"\x01\x00\x01\x00\xff", b"\x01\x00\x02\x00\xc3\x28", b"\x01\x00\x03\x00\xe2\x82\x28", b"\x04\x00\x01\x00\x00\x00\x11\x00", b"\x04\x00\x01\x00\x00\xd8\x00\x00"]:
+            must_raise("STRINGN.decode(malformed characters)", p.STRINGN.decode, data)
         # the `length` argument of Array.decode (keyword and positional), on unbounded and fixed array types: it says how many elements
         # the caller expects - fewer in the buffer is "not enough data", never a shorter list
         for et, vals in [(p.UINT, [1, 2, 65535]), (p.DINT, [-1, 0, 7, 2 ** 31 - 1]), (p.SINT, [5]), (p.REAL, [1.5, -2.0]), (p.STRING, ["a", "", "xyz"]), (p.LINT, [2 ** 40, -3])]:
